@@ -48,7 +48,7 @@ def work(run, part, parts):
         run.set_inconclusive("HOTP reference failed the RFC vectors")
         return
     rng = run.rng(f"gen{part}")
-    n = (400000 if run.tier == "quick" else 4000000) // parts
+    n = (400000 if run.tier == "quick" else 16000000) // parts
     tzs = [datetime.timezone.utc, datetime.timezone(datetime.timedelta(hours=5, minutes=30)), datetime.timezone(datetime.timedelta(hours=-8)),
            datetime.timezone(datetime.timedelta(minutes=1)), datetime.timezone(datetime.timedelta(hours=14))]
     for i in range(n):
@@ -122,7 +122,7 @@ def work(run, part, parts):
                 run.violation("C13|reuse|rekeyed-object-mismatch", f"after otp.key = <new key> generate() = {tok3}, RFC value for the new key {ref_hotp(key2, t2 // period, digits, alg)}",
                               dict(w, time2=t2, key2=key2), rp + f"\nt.key={key2!r}\nprint(t.generate({t2}).token)")
     # key spellings
-    m = (3000 if run.tier == "quick" else 60000) // parts
+    m = (3000 if run.tier == "quick" else 240000) // parts
     for i in range(m):
         klen = rng.choice(list(range(10, 41)) + [64])
         key = H.pw_bytes(rng, klen, "binary")
